@@ -144,6 +144,7 @@ def check(ctx):
 
     _round_trip(ctx, P)
     _type_hints(ctx, P)
+    _signature_source(ctx, P)
     _equivalence(ctx, P)
 
 
@@ -350,3 +351,54 @@ def _equivalence(ctx, P):
 def _fmt(sig):
     side = lambda s: ",".join("(" + ",".join(f"{getattr(n, 'name', n)}:{p}" for n, p in a) + ")" for a in s)
     return f"{side(sig[0])}->{side(sig[1])}"
+
+
+def _signature_source(ctx, P):
+    """R15.3b: the signature comes from the string or from the type hints, never both, never neither."""
+    q = "grid_ufunc:GridUFunc._get_signature_from_str_or_type_hints"
+    if not P.has_func(q):
+        ctx.unknown("R15.3", "signature source", "anchor function missing")
+        return
+    fi = P.func(q)
+    plain = Obj("type", "np.ndarray", (), {"_name": "ndarray"})
+    used = []
+
+    def m_str(ev, args, kw, node):
+        used.append(("string", args[-1]))
+        return Obj("Signature", "from-string")
+
+    def m_hints(ev, args, kw, node):
+        used.append(("hints", args[-1]))
+        return Obj("Signature", "from-hints")
+
+    def hasattr_hook(ev, f, args, kw, node):
+        from ..absint import Builtin
+
+        if isinstance(f, Builtin) and f.name == "hasattr" and len(args) == 2 and isinstance(args[1], str):
+            return isinstance(args[0], Obj) and args[1] in args[0].attrs
+        return NotImplemented
+
+    annotated = {"a": _hint("X:center"), "return": _hint("X:left")}
+    only_arg = {"a": _hint("X:center")}
+    bare = {"a": plain, "return": plain}
+    cases = [("string, no annotations", "(X:center)->(X:left)", bare, "string"), ("annotations, no string", "", annotated, "hints"), ("annotated argument only, no string", "", only_arg, "hints"),
+             ("string and annotations", "(X:center)->(X:left)", annotated, "raise"), ("string and an annotated argument", "(X:center)->(X:left)", only_arg, "raise"), ("neither", "", bare, "raise"), ("neither (None)", None, bare, "raise")]
+    for name, s, hints, want in cases:
+        used.clear()
+        ev = Evaluator(P, models={"typing.get_type_hints": lambda ev, a, k, n, hints=hints: dict(hints), "grid_ufunc:_GridUFuncSignature.from_string": m_str, "grid_ufunc:_GridUFuncSignature.from_type_hints": m_hints}, call_hook=hasattr_hook)
+        try:
+            outs = ev.run_paths(fi, lambda: dict(ufunc=Obj("func", "f"), str_sig=s))
+        except Unmodelled as e:
+            ctx.unknown("R15.3", f"signature source: {name}", str(e))
+            continue
+        bad = None
+        for o in outs:
+            if want == "raise":
+                if o.kind != "raise":
+                    bad = f"accepted (returns {o.value!r}); a grid ufunc must get its signature from exactly one of string and type hints"
+            elif o.kind != "return" or not used or used[-1][0] != want:
+                bad = f"{o.kind} {o.value!r}; expected the signature to be taken from the {want}"
+        if bad:
+            ctx.report("R15.3", fi, f"signature source: {name}", bad)
+        else:
+            ctx.ok("R15.3", f"signature source: {name}", "refused" if want == "raise" else f"taken from the {want}")
